@@ -83,7 +83,10 @@ def cases(draw):
                                                         'total': other_total, 'ranges': other_ranges},
             'arrival': [list(a) for a in arrival], 'pcrc': draw(st.sampled_from([0, 1, 2])), 'ycrc': draw(st.sampled_from([0, 1, 2])),
             'ext': draw(st.lists(st.booleans(), max_size=3)), 'source': draw(st.sampled_from(['ref', 'ref', 'repo'])),
-            'seed': draw(st.integers(0, 99))}
+            'seed': draw(st.integers(0, 99)),
+            # bundle processing control flags of the original (some assigned ones, and reserved / unassigned bits, which
+            # a node carries through unchanged): the reassembled bundle has them all again
+            'flags': draw(st.sampled_from([0, 0, 0x40, 0x20, 0x080000, 0x200040, (1 << 40) | 0x40, 0x2000]))}
 
 
 def strategy(tier):
@@ -93,6 +96,9 @@ def strategy(tier):
 def enumerate_cases(tier):
     for case in secured_cases(tier):
         yield case
+    for total in (2 ** 64 - 1, 2 ** 63, 2 ** 62 + 5):
+        for pcrc in (0, 1):
+            yield {'kind': 'huge-total', 'declared_total': total, 'plen': 100, 'pcrc': pcrc}
     limit = 4 if tier == 'quick' else 5
     fragsets = [
         (10, [[0, 5], [5, 10]]), (10, [[0, 3], [3, 7], [7, 10]]), (12, [[0, 3], [3, 6], [6, 9], [9, 12]]),
@@ -108,6 +114,7 @@ def enumerate_cases(tier):
             base = {'total': total, 'ranges': ranges, 'other': {'variant': 'seq', 'total': 7, 'ranges': []},
                     'pcrc': 1, 'ycrc': 2, 'ext': [True, False], 'source': 'ref', 'seed': 1}
             yield dict(base, arrival=[[0, i] for i in perm])
+            yield dict(base, arrival=[[0, i] for i in perm], flags=0x200040)
             for pos in range(len(perm) + 1):
                 for dup in idx:
                     arr = [[0, i] for i in perm]
@@ -141,7 +148,7 @@ def make_original(case, which):
                            data=strat9174.content(4 + idx, 50 + idx + which).hex()))
     blocks.append(dict(type=1, num=1, flags=0, crc_type=case['ycrc'],
                        data=strat9174.content(total, case.get('seed', 0) * 2 + which).hex()))
-    pri = dict(version=7, flags=0, crc_type=case['pcrc'], dest=['dtn', '//dst/svc'], src=src, rpt=['dtn', 'none'], ts=ts,
+    pri = dict(version=7, flags=int(case.get('flags') or 0), crc_type=case['pcrc'], dest=['dtn', '//dst/svc'], src=src, rpt=['dtn', 'none'], ts=ts,
                lifetime=3600000, frag=None)
     return {'primary': pri, 'blocks': blocks}
 
@@ -238,9 +245,52 @@ def execute_secured(case):
     return out
 
 
+def execute_huge_total(case):
+    ''' A single, well-formed first fragment that declares an enormous total length: whatever the agent does with it,
+    it must not treat it as a delivered bundle (nothing handed to an application, no delivery recorded or reported). '''
+    from vlib import bp_world as bw, ref9171 as r, strat9174
+    out = Outcome()
+    bw.reset()
+    node = bw.Node(NODE, rx_routes=[('^dtn://dst/', 'deliver')], tx_routes=[('.*', 'dtn://next/', None)])
+    total = int(case['declared_total'])
+    data = strat9174.content(int(case.get('plen', 100)), 1)
+    frag = {'primary': dict(version=7, flags=r.FLAG_FRAGMENT | r.FLAG_RPT_DELIVERY | r.FLAG_RPT_DELETION, crc_type=case.get('pcrc', 1),
+                            dest=['dtn', '//dst/svc'], src=['dtn', '//src/'], rpt=['dtn', '//reports/'], ts=[5000, 7],
+                            lifetime=3600000, frag=[0, total]),
+            'blocks': [dict(type=1, num=1, flags=0, crc_type=2, data=data.hex())]}
+    fin = []
+    orig = node.agent._finish_bundle
+
+    def finish(ctr):
+        fin.append(sorted(ctr.actions))
+        return orig(ctr)
+    node.agent._finish_bundle = finish
+    node.receive(r.encode(frag))
+    out.label('huge-total')
+    out.nontrivial = True
+    if node.records(False):
+        out.fail('huge-total-reached-application', 'a lone fragment declaring a total of %d octets reached an application step' % total)
+    if any('deliver' in acts for acts in fin):
+        out.fail('fragment-recorded-as-delivered', 'a lone fragment (%d of %d declared octets) was recorded as delivered: %s'
+                 % (len(data), total, fin))
+    for wire in node.sent():
+        try:
+            dec = r.decode(wire)
+            if dec['primary']['flags'] & r.FLAG_ADMIN:
+                body = r.parse_status_report(r.payload_block(dec)['data'])
+                if body['status'][2][0]:
+                    out.fail('fragment-reported-delivered', 'a status report asserts delivery of a bundle of which %d of %d octets arrived'
+                             % (len(data), total))
+        except r.RefError:
+            pass
+    return out
+
+
 def execute(case):
     if case.get('kind') == 'secured':
         return execute_secured(case)
+    if case.get('kind') == 'huge-total':
+        return execute_huge_total(case)
     from vlib import bp_world as bw, ref9171 as r
     out = Outcome()
     bw.reset()
@@ -313,6 +363,9 @@ def execute(case):
             if rec['payload'] != bytes.fromhex(orig['blocks'][-1]['data']):
                 out.fail('payload-wrong', 'reassembled payload of bundle %d differs from the original (%d vs %d octets) (%s)'
                          % (owner, len(rec['payload'] or b''), totals[owner], where))
+            if rec.get('flags') is not None and rec['flags'] != orig['primary']['flags']:
+                out.fail('primary-flags-changed', 'the reassembled bundle has bundle flags 0x%x, the original 0x%x (%s)'
+                         % (rec['flags'], orig['primary']['flags'], where))
             want_ext = sorted((b['type'], b['num'], b['data']) for b in orig['blocks'][:-1])
             got_ext = sorted((t, n, d.hex()) for (t, n, d) in rec['blocks'] if t != 1)
             if want_ext != got_ext:
